@@ -115,6 +115,50 @@ def crl(revoked=((0x1001, "200101000000Z"),), issuer=None, this_update="20010100
     tbs = seq(integer(1), ALG_SHA256RSA, issuer, utctime(this_update), utctime(next_update), rl, extensions)
     return seq(tbs, ALG_SHA256RSA, bitstr(bytes((i * 7 + 3) & 0xFF for i in range(256))))
 
+def gentime(s):             return tlv(0x18, s.encode() if isinstance(s, str) else s)
+def anytime(s):
+    s = s.encode() if isinstance(s, str) else s
+    return tlv(0x18 if len(s) >= 15 else 0x17, s)
+
+def crl_entry(serial=b"\x10\x01", date="190601000000Z", ext=None, serial_tag=0x02, seq_len=None, form=None):
+    """one revokedCertificates entry; ext = encoded crlEntryExtensions SEQUENCE content (or None); seq_len overrides
+    the SEQUENCE length octets (contents unchanged)"""
+    body = tlv(serial_tag, serial) + (date if isinstance(date, bytes) and date[:1] in (b"\x17", b"\x18") else anytime(date))
+    if ext is not None:
+        body += seq(ext)
+    return tlv(0x30, body, form, length=seq_len)
+
+ENTRY_EXTS = {
+    "reason": lambda: extension("2.5.29.21", tlv(0x0A, b"\x01")),
+    "invalidity": lambda: extension("2.5.29.24", gentime("20190101000000Z")),
+    "issuer": lambda: extension("2.5.29.29", seq(general_name(4, name(attr("cn", "Indirect CA")))), True),
+}
+CRL_EXTS = {
+    "akid": lambda: extension("akid", seq(ctx(0, bytes(range(20)), False))),
+    "crlnumber": lambda: extension("2.5.29.20", integer(4097)),
+    "idp": lambda: extension("2.5.29.28", seq(ctx(0, ctx(0, general_name(6, b"http://crl.example.com/ca.crl"))), ctx(1, b"\xff", False)), True),
+    "delta": lambda: extension("2.5.29.27", integer(4000), True),
+    "ian": lambda: san_ext([general_name(2, b"ca.example.com")], which="ian"),
+    "unknown": lambda: extension("1.2.3.4.5", octet(b"x")),
+}
+
+def crl_parts(entries=b"", declared=None, version=1, issuer=None, this_update="200101000000Z", next_update="300101000000Z",
+              exts=None, sigalg=None, sig=None, junk=b"", revoked_present=True):
+    """(CRL DER, offset of the first revoked entry) - `entries` are raw bytes placed inside the revokedCertificates
+    SEQUENCE whose length octets say `declared` (default: their real length)"""
+    issuer = issuer if issuer is not None else name(attr("c", "FI", 0x13), attr("o", "Verif"), attr("cn", "Verif CA"))
+    sigalg = sigalg if sigalg is not None else ALG_SHA256RSA
+    head = (integer(version) if version is not None else b"") + sigalg + issuer + anytime(this_update) + \
+           (anytime(next_update) if next_update is not None else b"")
+    rev_hdr = tlv(0x30, b"", length=len(entries) if declared is None else declared) if revoked_present else b""
+    tail = junk + (ctx(0, seq(*exts)) if exts else b"")
+    body = head + rev_hdr + (entries if revoked_present else b"") + tail
+    tbs = tlv(0x30, body)
+    outer_tail = sigalg + bitstr(sig if sig is not None else bytes((i * 7 + 3) & 0xFF for i in range(256)))
+    whole = tlv(0x30, tbs + outer_tail)
+    off = (len(whole) - len(tbs) - len(outer_tail)) + (len(tbs) - len(body)) + len(head) + len(rev_hdr)
+    return whole, off
+
 # ------------------------------------------------------------------------------- PEM
 def pem_blocks(text):
     """[(label, der)] for every -----BEGIN x----- block of a PEM text (bytes or str); undecodable blocks skipped"""
